@@ -35,8 +35,10 @@ RULE = ('sentences of 7 themes (subsampled), comments of 5 shapes placed in '
         'the end); one evaluation per commented text.  Non-trivial = at '
         'least one comment was attached; distinct by text.')
 
-BLOCK = ['/*c%d*/', '/**/', '/* * / %d */']
-BREAKING = ['//c%d\n', '/*a\nb%d*/', '/* x%d */\n', '//\r\n']
+BLOCK = ['/*c%d*/', '/**/', '/* * / %d */', '/*  t%d\t */']
+BREAKING = ['//c%d\n', '/*a\nb%d*/', '/* x%d */\n', '//\r\n',
+            # white space at line ends, CR LF inside (verbatim means verbatim)
+            '// t%d \t\n', '/* a \r\n * \r\n * b%d\t\r\n */', '/*\r%d \r*/']
 
 
 def place_comments(sent, rng, n):
